@@ -41,7 +41,11 @@ func MergeSignature(w io.Writer, sig []byte, message io.Reader, withArmor bool, 
 		return err
 	}
 	// write literal data
-	if size := getSize(message); size >= 0 {
+	size, err := getSize(message)
+	if err != nil {
+		return err
+	}
+	if size >= 0 {
 		if err := serializeLiteral(armorer, message, size, filename); err != nil {
 			return err
 		}
@@ -108,29 +112,30 @@ func serializeLiteral(w io.Writer, r io.Reader, size int32, filename string) err
 	return err
 }
 
-// get the size from a reader if it's seekable and not too big to fit in a single literal data packet, otherwise returns -1
-func getSize(r io.Reader) int32 {
+// get the size from a reader if it's seekable and not too big to fit in a single literal data packet, otherwise returns -1.
+// An error means the reader was moved and could not be put back, so it can't be streamed either.
+func getSize(r io.Reader) (int32, error) {
 	seek, ok := r.(io.Seeker)
 	if !ok {
-		return -1
+		return -1, nil
 	}
 	start, err := seek.Seek(0, io.SeekCurrent)
 	if err != nil {
-		return -1
+		return -1, nil
 	}
 	end, err := seek.Seek(0, io.SeekEnd)
 	if err != nil {
-		return -1
+		return -1, nil
 	}
 	_, err = seek.Seek(start, io.SeekStart)
 	if err != nil {
-		return -1
+		return -1, err
 	}
 	size := end - start
 	if size > maxLiteralSize {
-		return -1
+		return -1, nil
 	}
-	return int32(size)
+	return int32(size), nil
 }
 
 // serializeHeader writes an OpenPGP packet header to w. See RFC 4880, section
